@@ -218,3 +218,47 @@ Proof.
   - intros s Hb Hs. destruct (sa_sound c n K' v t' r' Hc HSA HK' Hag' Hr' s Hb) as (A & B & _).
     unfold mf_lo, mf_hi. fold (L r' s) (U r' s). split; assumption.
 Qed.
+
+(* ---------- (e) scale invariance ---------- *)
+Lemma mf_bool_eq (b1 b2 : bool) : (b1 = true <-> b2 = true) -> b1 = b2.
+Proof. destruct b1, b2; intuition congruence. Qed.
+
+Theorem mf_factor_scale n c num den num' den' :
+  0 < c -> (forall s, bounded n s -> s <> 0%N -> num' s == c * num s /\ den' s == c * den s) ->
+  mf_factor n num' den' = mf_factor n num den.
+Proof.
+  intros Hc H. unfold mf_factor.
+  assert (E1 : mf_ge_all (mf_ids n) num' den' = mf_ge_all (mf_ids n) num den).
+  { apply mf_bool_eq. rewrite !mf_ge_all_iff.
+    split; intros G s Hb Hs; destruct (H s Hb Hs) as [A B]; specialize (G s Hb Hs).
+    - rewrite A, B in G. apply Qmult_le_l in G; assumption.
+    - rewrite A, B. apply Qmult_le_l; assumption. }
+  assert (E2 : mf_pos_all (mf_ids n) den' = mf_pos_all (mf_ids n) den).
+  { apply mf_bool_eq. rewrite !mf_pos_all_iff.
+    split; intros G s Hb Hs; destruct (H s Hb Hs) as [A B]; specialize (G s Hb Hs).
+    - rewrite B in G. setoid_replace 0 with (c * 0) in G by ring. apply Qmult_lt_l in G; assumption.
+    - rewrite B. setoid_replace 0 with (c * 0) by ring. apply Qmult_lt_l; assumption. }
+  rewrite E1, E2. destruct (mf_ge_all (mf_ids n) num den) eqn:G1; [|reflexivity].
+  destruct (mf_pos_all (mf_ids n) den) eqn:G2; [|reflexivity].
+  assert (E3 : qmaxl (map (fun s => num' s / den' s) (mf_ids n)) == qmaxl (map (fun s => num s / den s) (mf_ids n))).
+  { apply qmaxl_map_Qeq. intros s Hin. apply mf_in_ids in Hin. destruct Hin as [Hb Hs]. destruct (H s Hb Hs) as [A B].
+    rewrite A, B. pose proof (proj1 (mf_pos_all_iff n den) G2 s Hb Hs). field. split; lra. }
+  destruct (mf_ids n); [reflexivity|]. f_equal. apply Qred_complete. exact E3.
+Qed.
+
+(* game v' = c v, approximation a' = c a, table t' = c t (both bound columns), c > 0: every factor is unchanged *)
+Definition mf_scaled (c : Q) (n : nat) (f f' : N -> Q) : Prop :=
+  forall s, bounded n s -> s <> 0%N -> f' s == c * f s.
+
+Theorem mf_scale_invariant n c v v' a a' t t' :
+  0 < c -> mf_scaled c n v v' -> mf_scaled c n a a' ->
+  mf_scaled c n (mf_lo t) (mf_lo t') -> mf_scaled c n (mf_hi t) (mf_hi t') ->
+  mf_to_approximation n v' a' = mf_to_approximation n v a
+  /\ mf_upper_to_approximation n a' t' = mf_upper_to_approximation n a t
+  /\ mf_to_lower_bound n v' t' = mf_to_lower_bound n v t
+  /\ mf_lower_upper_bound n t' = mf_lower_upper_bound n t.
+Proof.
+  intros Hc Hv Ha Hl Hh.
+  unfold mf_to_approximation, mf_upper_to_approximation, mf_to_lower_bound, mf_lower_upper_bound.
+  repeat split; apply (mf_factor_scale n c); try exact Hc; intros s Hb Hs; split; auto.
+Qed.
